@@ -43,6 +43,19 @@ func newRecorder() *recorder {
 	return &recorder{inner: ds.NewMapDatastore(), images: []map[string][]byte{{}}, writeAt: []int{-1}}
 }
 
+// newRecorderFrom starts from a persisted image (used to log the writes of the recovery run on reopen).
+func newRecorderFrom(img map[string][]byte) *recorder {
+	r := newRecorder()
+	base := map[string][]byte{}
+	for k, v := range img {
+		b := append([]byte{}, v...)
+		base[k] = b
+		r.inner.Put(context.Background(), ds.NewKey(k), b)
+	}
+	r.images[0] = base
+	return r
+}
+
 func (r *recorder) snapshot() {
 	prev := r.images[len(r.images)-1]
 	img := make(map[string][]byte, len(prev)+1)
@@ -167,4 +180,24 @@ func imageDS(img map[string][]byte) *ds.MapDatastore {
 		d.Put(context.Background(), ds.NewKey(k), append([]byte{}, v...))
 	}
 	return d
+}
+
+// orderDS returns the entries of a Query whose key is in `last` after all
+// others (the datastore contract leaves the order of unordered queries open).
+type orderDS struct {
+	*recorder
+	last map[string]bool
+}
+
+func (o *orderDS) Query(ctx context.Context, q dsq.Query) (dsq.Results, error) {
+	res, err := o.recorder.Query(ctx, q)
+	if err != nil || len(o.last) == 0 || len(q.Orders) > 0 {
+		return res, err
+	}
+	all, err := res.Rest()
+	if err != nil {
+		return nil, err
+	}
+	sort.SliceStable(all, func(i, j int) bool { return !o.last[all[i].Key] && o.last[all[j].Key] })
+	return dsq.ResultsWithEntries(q, all), nil
 }
